@@ -123,6 +123,10 @@ pub fn call(name: &str, args: &[String]) -> Value {
             expected.push(json!(["Cont", ""]));
             evs.push(Err(s3s::S3Error::with_message(s3s::S3ErrorCode::from_bytes(b"ZzCustom").unwrap_or(s3s::S3ErrorCode::InternalError), "boom <&>")));
             expected.push(json!([if s3s::S3ErrorCode::from_bytes(b"ZzCustom").is_some() { "ZzCustom" } else { "InternalError" }, ""]));
+            evs.push(Err(s3s::S3Error::new(s3s::S3ErrorCode::InternalError)));
+            expected.push(json!(["InternalError", ""]));
+            evs.push(Ok(SelectObjectContentEvent::Records(RecordsEvent { payload: Some(bytes::Bytes::from_static(b"after-error")) })));
+            expected.push(json!(["Records", crate::hex(b"after-error")]));
             evs.push(Ok(SelectObjectContentEvent::End(EndEvent::default())));
             expected.push(json!(["End", ""]));
             let stream = SelectObjectContentEventStream::new(futures::stream::iter(evs));
